@@ -135,13 +135,13 @@ class PageFeatureProcessor:
             document.rtf_footnote
             and document.rtf_footnote.text
             and getattr(document.rtf_footnote, "as_table", True)
-            and document.rtf_page.page_footnote in ("last", "all")
+            and self._should_show_element(document.rtf_page.page_footnote, page)
         )
         source_as_table_on_last = (
             document.rtf_source
             and document.rtf_source.text
             and getattr(document.rtf_source, "as_table", False)
-            and document.rtf_page.page_source in ("last", "all")
+            and self._should_show_element(document.rtf_page.page_source, page)
         )
 
         # 4. Bottom Border Logic
